@@ -20,6 +20,12 @@ type Decision struct {
 	Open bool // 'v': value not chosen yet (alternative item): pick one not in Excl
 }
 
+// WorkItem is an unexplored path: a decision prefix plus (optionally) a model of its path condition.
+type WorkItem struct {
+	Prefix []Decision
+	Model  map[string]uint64
+}
+
 type inputRec struct {
 	Kind  string  // "byte","bytes","bool","int","intrange","tokens"
 	Name  string  // variable base name
@@ -44,7 +50,10 @@ type Exec struct {
 	prefix      []Decision
 	pos         int
 	trace       []Decision
-	newWork     [][]Decision
+	newWork     []WorkItem
+	model       map[string]uint64 // satisfies pc, or nil
+	pcset       map[int]bool
+	prefixModel map[string]uint64
 	steps       int
 	budget      int
 	depth       int
@@ -66,6 +75,7 @@ type Exec struct {
 	hrun        *HarnessRun
 	par         *parState
 	lastInstr   string
+	funcs       map[*ssa.Function]bool
 }
 
 type Violation struct {
@@ -89,7 +99,7 @@ type PathResult struct {
 	Decisions  int
 	Covers     map[string]bool
 	Violations []*Violation
-	NewWork    [][]Decision
+	NewWork    []WorkItem
 	Tainted    bool
 	Unknowns   int
 	Concret    int
@@ -106,15 +116,78 @@ type PathSample struct {
 
 // feasible decides pc ∧ c using independence slicing and the query cache.
 func (ex *Exec) feasible(c *Term) Verdict {
+	v, _ := ex.feasibleModel(c)
+	return v
+}
+
+// feasibleModel also returns a model of the relevant slice when satisfiable.
+func (ex *Exec) feasibleModel(c *Term) (Verdict, map[string]uint64) {
 	if c.isTrue() {
-		return Sat
+		return Sat, nil
 	}
 	if c.isFalse() {
-		return Unsat
+		return Unsat, nil
+	}
+	if ex.pcset[c.id] {
+		return Sat, nil
+	}
+	if c.op == OpNot && ex.pcset[c.args[0].id] {
+		return Unsat, nil
+	}
+	if c.op != OpNot {
+		if n, ok := ex.ts.tab[termKey{op: OpNot, a: c.id, b: -1, c: -1}]; ok && ex.pcset[n.id] {
+			return Unsat, nil
+		}
 	}
 	rel := ex.sliceFor(c)
 	rel = append(rel, c)
-	return ex.sol.Check(rel)
+	return ex.sol.CheckModel(rel)
+}
+
+// evalModel evaluates a condition under the current model of pc.
+func (ex *Exec) evalModel(c *Term) (bool, bool) {
+	if ex.model == nil {
+		return false, false
+	}
+	v, ok := ex.ts.Eval(c, ex.model)
+	return v != 0, ok
+}
+
+// ensureModel (re)acquires a model of the whole path condition.
+func (ex *Exec) ensureModel() {
+	if ex.model != nil {
+		return
+	}
+	if len(ex.pc) == 0 {
+		ex.model = map[string]uint64{}
+		return
+	}
+	var vs varset
+	for _, c := range ex.pc {
+		vs = vs.union(c.vars)
+	}
+	var vars []*Term
+	for _, i := range vs.list() {
+		vars = append(vars, ex.ts.vars[i])
+	}
+	v, m := ex.sol.Model(ex.pc, vars)
+	if v == Sat {
+		if m == nil {
+			m = map[string]uint64{}
+		}
+		ex.model = m
+	}
+}
+
+func mergeModel(base, over map[string]uint64) map[string]uint64 {
+	r := make(map[string]uint64, len(base)+len(over))
+	for k, v := range base {
+		r[k] = v
+	}
+	for k, v := range over {
+		r[k] = v
+	}
+	return r
 }
 
 func (ex *Exec) sliceFor(c *Term) []*Term {
@@ -139,10 +212,16 @@ func (ex *Exec) sliceFor(c *Term) []*Term {
 }
 
 func (ex *Exec) addPC(c *Term) {
-	if c.isTrue() {
+	if c.isTrue() || ex.pcset[c.id] {
 		return
 	}
 	ex.pc = append(ex.pc, c)
+	ex.pcset[c.id] = true
+	if ex.model != nil {
+		if v, ok := ex.ts.Eval(c, ex.model); !ok || v == 0 {
+			ex.model = nil
+		}
+	}
 }
 
 // decide forks on a symbolic condition.
@@ -171,13 +250,69 @@ func (ex *Exec) decide(c *Term) bool {
 		return d.Val == 1
 	}
 	ex.pos++
+	if ex.pos-1 == len(ex.prefix) && ex.prefixModel != nil && ex.model == nil {
+		// first fresh decision after a replayed prefix: the work item carried a model
+		ex.model = ex.prefixModel
+		ex.prefixModel = nil
+		for _, p := range ex.pc {
+			if v, ok := ex.ts.Eval(p, ex.model); !ok || v == 0 {
+				ex.model = nil
+				break
+			}
+		}
+	}
 	nc := ex.ts.Not(c)
-	t := ex.feasible(c)
+	take := func(side bool) bool {
+		d := Decision{Kind: 'b'}
+		if side {
+			d.Val = 1
+			ex.addPC(c)
+		} else {
+			ex.addPC(nc)
+		}
+		ex.trace = append(ex.trace, d)
+		return side
+	}
+	pushAlt := func(side bool, m map[string]uint64) {
+		alt := make([]Decision, len(ex.trace)+1)
+		copy(alt, ex.trace)
+		d := Decision{Kind: 'b'}
+		if side {
+			d.Val = 1
+		}
+		alt[len(ex.trace)] = d
+		var wm map[string]uint64
+		if ex.model != nil {
+			wm = mergeModel(ex.model, m)
+		}
+		ex.newWork = append(ex.newWork, WorkItem{Prefix: alt, Model: wm})
+	}
+	ex.ensureModel()
+	if mv, ok := ex.evalModel(c); ok {
+		// the model already witnesses one side; only the other needs the solver
+		var other *Term
+		if mv {
+			other = nc
+		} else {
+			other = c
+		}
+		v, m := ex.feasibleModel(other)
+		if v == Unknown {
+			ex.unknowns++
+			ex.tainted = true
+		}
+		if v != Unsat {
+			pushAlt(!mv, m)
+		}
+		return take(mv)
+	}
+	t, tm := ex.feasibleModel(c)
 	var f Verdict
+	var fm map[string]uint64
 	if t == Unsat {
 		f = Sat // pc is satisfiable, so the other side must be
 	} else {
-		f = ex.feasible(nc)
+		f, fm = ex.feasibleModel(nc)
 	}
 	if t == Unknown || f == Unknown {
 		ex.unknowns++
@@ -185,22 +320,18 @@ func (ex *Exec) decide(c *Term) bool {
 	}
 	switch {
 	case t != Unsat && f != Unsat:
-		alt := make([]Decision, len(ex.trace)+1)
-		copy(alt, ex.trace)
-		alt[len(ex.trace)] = Decision{Kind: 'b', Val: 0}
-		ex.newWork = append(ex.newWork, alt)
-		ex.trace = append(ex.trace, Decision{Kind: 'b', Val: 1})
-		ex.addPC(c)
-		return true
+		pushAlt(false, fm)
+		if ex.model != nil && tm != nil {
+			ex.model = mergeModel(ex.model, tm)
+		}
+		return take(true)
 	case t != Unsat:
-		// forced: not recorded as a decision with an alternative, but recorded for replay stability
-		ex.trace = append(ex.trace, Decision{Kind: 'b', Val: 1})
-		ex.addPC(c)
-		return true
+		if ex.model != nil && tm != nil {
+			ex.model = mergeModel(ex.model, tm)
+		}
+		return take(true)
 	default:
-		ex.trace = append(ex.trace, Decision{Kind: 'b', Val: 0})
-		ex.addPC(nc)
-		return false
+		return take(false)
 	}
 }
 
@@ -250,7 +381,7 @@ func (ex *Exec) concretize(t *Term) uint64 {
 		alt := make([]Decision, len(ex.trace)+1)
 		copy(alt, ex.trace)
 		alt[len(ex.trace)] = Decision{Kind: 'v', Open: true, Excl: excl2}
-		ex.newWork = append(ex.newWork, alt)
+		ex.newWork = append(ex.newWork, WorkItem{Prefix: alt})
 	}
 	ex.trace = append(ex.trace, Decision{Kind: 'v', Val: val})
 	ex.addPC(ts.Eq(t, ts.Const(val, t.bits)))
@@ -276,7 +407,7 @@ func (ex *Exec) chooseN(n int, what string) int {
 		alt := make([]Decision, len(ex.trace)+1)
 		copy(alt, ex.trace)
 		alt[len(ex.trace)] = Decision{Kind: 'n', Val: uint64(i)}
-		ex.newWork = append(ex.newWork, alt)
+		ex.newWork = append(ex.newWork, WorkItem{Prefix: alt, Model: ex.model})
 	}
 	ex.trace = append(ex.trace, Decision{Kind: 'n', Val: 0})
 	return 0
@@ -344,8 +475,15 @@ func (ex *Exec) pcString() string {
 	return strings.Join(parts, " ∧ ")
 }
 
-func (ex *Exec) resetPath(prefix []Decision) {
+func (ex *Exec) resetPath(item WorkItem) {
 	ex.pc = ex.pc[:0]
+	ex.pcset = map[int]bool{}
+	ex.model = nil
+	ex.prefixModel = item.Model
+	if len(item.Prefix) == 0 {
+		ex.model = map[string]uint64{}
+	}
+	prefix := item.Prefix
 	ex.prefix = prefix
 	ex.pos = 0
 	ex.trace = nil
@@ -370,8 +508,8 @@ func (ex *Exec) resetPath(prefix []Decision) {
 }
 
 // runPath executes the harness once along the given decision prefix.
-func (ex *Exec) runPath(h *HarnessRun, prefix []Decision) (res PathResult) {
-	ex.resetPath(prefix)
+func (ex *Exec) runPath(h *HarnessRun, item WorkItem) (res PathResult) {
+	ex.resetPath(item)
 	ex.hrun = h
 	ex.budget = h.Budget
 	defer func() {
@@ -405,12 +543,16 @@ func (ex *Exec) runPath(h *HarnessRun, prefix []Decision) (res PathResult) {
 		}
 		res.Violations = ex.violations
 		if h.sampleThis() && (res.Outcome == "ok" || res.Outcome == "panic") {
-			ins, _, v := ex.witness()
+			ins, m, v := ex.witness()
 			if v == Sat {
 				res.Inputs = ins
 				res.Sample = &PathSample{PathCond: ex.pcString(), Inputs: ins, Outcome: res.Outcome}
 				for _, o := range ex.obs {
-					res.Obs = append(res.Obs, o.Label)
+					if s, ok := ex.renderObs(o, m); ok {
+						res.Obs = append(res.Obs, s)
+					} else {
+						res.Obs = append(res.Obs, o.Label+"=?")
+					}
 				}
 			}
 		}
@@ -422,6 +564,38 @@ func (ex *Exec) runPath(h *HarnessRun, prefix []Decision) (res PathResult) {
 	ex.inHarness = true
 	ex.callFunction(h.Fn, h.argValues(), nil, nil)
 	return
+}
+
+// renderObs evaluates an observation under a model.
+func (ex *Exec) renderObs(o obsRec, m map[string]uint64) (string, bool) {
+	switch v := o.Val.(type) {
+	case string:
+		return o.Label + "=" + v, true
+	case int64:
+		return fmt.Sprintf("%s=%d", o.Label, v), true
+	case *Term:
+		u, ok := ex.ts.Eval(v, m)
+		if !ok {
+			return "", false
+		}
+		return fmt.Sprintf("%s=%d", o.Label, sext(u, v.bits)), true
+	case *SymStr:
+		b := make([]byte, len(v.b))
+		for i, x := range v.b {
+			switch x := x.(type) {
+			case int64:
+				b[i] = byte(x)
+			case *Term:
+				u, ok := ex.ts.Eval(x, m)
+				if !ok {
+					return "", false
+				}
+				b[i] = byte(u)
+			}
+		}
+		return o.Label + "=" + string(b), true
+	}
+	return "", false
 }
 
 func (ex *Exec) ensureInit(p *ssa.Package) bool {
@@ -509,6 +683,7 @@ type RunStats struct {
 	Samples      []*PathSample
 	Validate     [][]ReplayInput
 	ValidateWant []string
+	ValidateObs  [][]string
 	Unsupported  map[string]int
 	Solver       SolverStats
 	Wall         time.Duration
@@ -522,7 +697,7 @@ func (e *Engine) explore(h *HarnessRun, workers int) *RunStats {
 	t0 := time.Now()
 	var mu sync.Mutex
 	cond := sync.NewCond(&mu)
-	work := [][]Decision{nil}
+	work := []WorkItem{{}}
 	active := 0
 	stop := false
 	var wg sync.WaitGroup
@@ -543,12 +718,12 @@ func (e *Engine) explore(h *HarnessRun, workers int) *RunStats {
 					cond.Broadcast()
 					return
 				}
-				prefix := work[len(work)-1]
+				item := work[len(work)-1]
 				work = work[:len(work)-1]
 				active++
 				mu.Unlock()
 
-				res := ex.runPath(h, prefix)
+				res := ex.runPath(h, item)
 				npaths++
 				if npaths%2000 == 0 {
 					ex.recycle()
@@ -583,6 +758,7 @@ func (e *Engine) explore(h *HarnessRun, workers int) *RunStats {
 					if len(st.Validate) < e.maxValidate {
 						st.Validate = append(st.Validate, res.Inputs)
 						st.ValidateWant = append(st.ValidateWant, res.Outcome)
+						st.ValidateObs = append(st.ValidateObs, res.Obs)
 					}
 				}
 				if h.MaxPaths > 0 && st.Paths >= h.MaxPaths && len(work) > 0 {
@@ -614,7 +790,7 @@ func (e *Engine) explore(h *HarnessRun, workers int) *RunStats {
 
 func (e *Engine) newExec(id int) *Exec {
 	ts := NewTermStore()
-	ex := &Exec{eng: e, ts: ts, id: id}
+	ex := &Exec{eng: e, ts: ts, id: id, funcs: map[*ssa.Function]bool{}}
 	ex.sol = NewSolver(e.solverKind, ts, e.solverTimeoutMs, e.seed)
 	return ex
 }
@@ -628,6 +804,9 @@ func (ex *Exec) recycle() {
 }
 
 func (ex *Exec) flushStats() {
+	for f := range ex.funcs {
+		ex.eng.funcsExecuted.Store(f.String(), true)
+	}
 	ex.eng.smu.Lock()
 	ex.eng.solverTotal.add(ex.sol.stats)
 	ex.eng.smu.Unlock()
